@@ -689,6 +689,57 @@ async fn run_op(sh: &Shared, client: usize, op: Op) {
                     },
                     format!("the BBS+ signature returned for key id {id} (public key argument: that of {arg_id}) does not verify under the public JWK of {id}"),
                   );
+                } else if data.len() >= 2 && ctx::choose(2) == 0 {
+                  // update_signature (validity timeframe update): two of the signed messages are replaced; the signature
+                  // returned for this key id verifies over the new messages under the key's own public JWK, or the call
+                  // is refused. The public JWK handed in is the key's own, one time in three with `alg` naming the
+                  // other ciphersuite.
+                  let (i_start, i_end) = (0usize, data.len() - 1);
+                  let mut new_data = data.clone();
+                  new_data[i_start] = ctx::bytes(8);
+                  new_data[i_end] = ctx::bytes(8);
+                  let upd_ctx = identity_storage::ProofUpdateCtx {
+                    old_start_validity_timeframe: data[i_start].clone(),
+                    new_start_validity_timeframe: new_data[i_start].clone(),
+                    old_end_validity_timeframe: data[i_end].clone(),
+                    new_end_validity_timeframe: new_data[i_end].clone(),
+                    index_start_validity_timeframe: i_start,
+                    index_end_validity_timeframe: i_end,
+                    number_of_signed_messages: data.len(),
+                  };
+                  let mut upd_pk = own_pk.clone();
+                  let mut upd_other_suite = false;
+                  if ctx::choose(3) == 0 {
+                    let mut j = serde_json::to_value(&own_pk).unwrap_or_default();
+                    j["alg"] = jsonprooftoken::jpa::algs::ProofAlgorithm::BLS12381_SHAKE256.to_string().into();
+                    if let Ok(changed) = serde_json::from_value::<Jwk>(j) {
+                      upd_pk = changed;
+                      upd_other_suite = true;
+                    }
+                  }
+                  match sh.jwk.update_signature(&KeyId::new(id.clone()), &upd_pk, &sig, upd_ctx).await {
+                    Ok(updated) => {
+                      ctx::stat("probe.update_signature_ok");
+                      if !bbs_verify(&own_pk, &new_data, &header, &updated) {
+                        ctx::violation(
+                          "C15",
+                          "C15.signature_verifies_under_own_key",
+                          if upd_other_suite { "update_signature/other-ciphersuite-named/does-not-verify-under-own-key" } else { "update_signature/does-not-verify" },
+                          format!("the updated BBS+ signature returned for key id {id} does not verify over the updated messages under the public JWK of {id}"),
+                        );
+                      }
+                    }
+                    Err(e) => {
+                      if !upd_other_suite {
+                        ctx::violation(
+                          "C15",
+                          "C15.sign_succeeds",
+                          "update_signature/refused",
+                          format!("update_signature for the present key {id} with its own public JWK failed: {e}"),
+                        );
+                      }
+                    }
+                  }
                 }
                 Ret::Signed
               }
